@@ -212,7 +212,11 @@ class Response:
     XTWINOPS = rf"{CSI_escaped}{Ps};(\d+);(\d+)t"
 
     RGB_SPEC_re = rf"{OSC_escaped}(\d+);(rgb:[\da-fA-F/]+){ST_or_BEL}"
-    XTVERSION_re = rf"{DCS}>\|(\w+)[( ]([^){ESC}]+)\)?{ST_or_BEL}"
+    # The name may contain non-word characters (e.g. "xterm.js(5.3.0)") and
+    # the version may be absent
+    XTVERSION_re = (
+        rf"{DCS}>\|([^ ({ESC}]+)(?:[( ]([^){ESC}]+)\)?)?{ST_or_BEL}"
+    )
     TEXT_AREA_SIZE_PX_re = XTWINOPS % 4
     CELL_SIZE_PX_re = XTWINOPS % 6
     KITTY_RESPONSE_re = (
